@@ -621,6 +621,14 @@ def r_columns(F, R, cat=None):
         cell = [e for e in effs if e.tag == ("Push", "push") and ("inner", ("[]",)) in self_field_targets(e, ctx)]
         # (one push, or one per arm of a lookup of the column -- `match columns.get_mut(i) { Some(c) => c.push(v),
         #  None => { create; columns[i].push(v) } }` -- never two on one path)
+        if not cell:
+            unresolved = [e for e in effs if e.tag == ("Push", "push") and not self_field_targets(e, ctx)]
+            if unresolved:
+                # the column handed the cell comes out of a helper's Result / Option (`column_mut(i).unwrap().push(v)`):
+                # which column that is, is not something this rule reads
+                R.undecided_site("R-COLUMNS", b.label(), "the per-cell push at %s has a receiver the rule cannot trace to a column: "
+                                 "the pairing of cells and columns is not decided" % unresolved[0].where())
+                continue
         ok_cell = len(cell) >= 1 and not any(x is not y and x.ctx is y.ctx and (x.bb == y.bb or y.bb in reach_strict(x.ctx.body, x.bb))
                                             for x in cell for y in cell)
         aligned = False
